@@ -19,7 +19,11 @@
 //	                        (diff layers over the disk layer) differs from the account trie / storage trie
 //	                        at the same root (opened on the database WITHOUT snapshots); includes storage
 //	                        that dangles under an account the trie does not have
-//	snap-verify             snapshot.Tree.Verify(root): the root recomputed from the layers' iterators differs
+//	snap-verify             snapshot.Tree.Verify(root): the root (or an account's storage root) recomputed from the
+//	                        layers' sorted iterators (diff layers' lists + the database under the disk layer) differs
+//	snap-flatten-aliasing   KNOWN FINDING: slot-only divergence on a StateDB whose own layer object was flattened into a
+//	                        diff parent (diffLayer.flatten shares the child's inner storage map); only inside famFlattenAliasing
+//	create-account-balance  CreateAccount over an existing account did not carry its balance over
 //	panic / db-error        unexpected panic, Commit error, memoised database error
 package main
 
@@ -532,7 +536,7 @@ func main() {
 		codeLabel[crypto.Keccak256Hash(c)] = i
 	}
 	o := out.Open()
-	o.Rule = "a case is one history over <=4 StateDB handles on one database (setters, Snapshot/RevertToSnapshot nested, Finalise, IntermediateRoot, Commit, Copy, re-open at a committed root), 3 addresses (always 0x03) x 3 slots; non-trivial = contains a revert, a copy, or a commit followed by a re-open; distinct by the op-kind string and result string"
+	o.Rule = "a case is one history over StateDB handles on one database (setters, Snapshot/RevertToSnapshot nested, Finalise, IntermediateRoot, Commit, Copy, re-open at a committed root), run in lockstep on a second database with a snapshot tree (Cap with depth 0..3, direct reads of every layer, Tree.Verify), 3 addresses (always 0x03) x 3 slots; directed families: destruct+re-create over the disk layer, contract lifecycle over blocks, copies with pending snapshot data, stale layers under open states, sibling branches, >128 layers, RIPEMD reverted touch, flatten aliasing (known); non-trivial = contains a revert, a copy, or a commit followed by a re-open; distinct by the op-kind string and result string"
 	root := gen.New(*out.Seed)
 	for c := 0; c < *out.N; c++ {
 		if !out.Want(c) {
@@ -772,6 +776,11 @@ func (cr *caseRun) commitF(h int, de bool, dump string, capd int, force bool) st
 // do executes p on the main environment, records it, and runs the per-op oracles.
 func (cr *caseRun) do(p op) string {
 	e := cr.e
+	if e.hs[p.h] == nil {
+		// a handle whose creation failed (reported as db-error when it happened): nothing can be done on it
+		cr.o.Count("op.skipped-nil-handle")
+		return ""
+	}
 	st := e.hs[p.h]
 	l := cr.lin[p.h]
 	// RIPEMD touch bookkeeping (before the op: existence/emptiness at call time)
@@ -868,6 +877,18 @@ func (cr *caseRun) do(p op) string {
 				}
 			}
 		}
+	case "CA":
+		// CreateAccount over an existing account carries its balance over (prev is the dump taken immediately before)
+		if prev, ok := cr.last[p.h]; ok && !cr.prevTouched && p.dump == "F" && !pan {
+			eb, bb := existsBalance(prev, p.a)
+			_, ba := existsBalance(d, p.a)
+			if eb && bb != ba {
+				cr.o.Fail(cr.step, "create-account-balance", fmt.Sprintf("account %d had balance %s before CreateAccount and %s after", p.a, bb, ba))
+			}
+			cr.o.Count("oracle.create-balance-checked")
+		}
+		l.ops = append(l.ops, p)
+		l.clean = false
 	case "FI", "IR", "CM":
 		if prev, ok := cr.last[p.h]; ok && !cr.prevTouched && p.dump == "F" && l.ok && !pan {
 			// prev is the dump taken immediately before this operation
@@ -1002,7 +1023,15 @@ func runCase(o *out.Out, r *gen.Rand, c int) {
 	cr.sparse = r.Chance(1, 2)
 	o.Case(c, fmt.Sprintf("CASE %d A %d %d %d K %d %d %d", c, ua[0], ua[1], ua[2], uk[0], uk[1], uk[2]))
 	o.Count(fmt.Sprintf("mode.sparse%s", b01(cr.sparse)))
-	cr.generate()
+	func() {
+		// a panic that escapes the per-operation recover (e.g. in an oracle reading a broken state) ends the case, not the run
+		defer func() {
+			if x := recover(); x != nil {
+				o.Fail(cr.step, "panic", fmt.Sprintf("panic outside an operation: %v", x))
+			}
+		}()
+		cr.generate()
+	}()
 	e2 := cr.e2
 	if !cr.snapBroken {
 		o.Count("oracle.snap-lockstep-complete")
@@ -1062,6 +1091,20 @@ func slotOnlyDiff(x, y string) bool {
 	return x != y && blank(x) == blank(y)
 }
 
+// existsBalance parses a full dump: does account ai exist, and its balance.
+func existsBalance(d string, ai int) (bool, string) {
+	pre := fmt.Sprintf("A%d:", ai)
+	for _, tok := range strings.Fields(d) {
+		if i := strings.Index(tok, pre); i == 0 || (i > 0 && tok[i-1] == '|') {
+			f := strings.Split(tok[i+len(pre):], ",")
+			if len(f) >= 2 && len(f[0]) == 2 {
+				return f[0][0] == '1', f[1]
+			}
+		}
+	}
+	return false, ""
+}
+
 // suicidedExists parses a full dump: account id -> (exists, suicided).
 func suicidedExists(d string) map[int][2]bool {
 	m := map[int][2]bool{}
@@ -1116,6 +1159,9 @@ func (cr *caseRun) commitAndReopen(h int, de bool) {
 func (cr *caseRun) commitAndReopenCap(h int, de bool, capd int) {
 	e := cr.e
 	st := e.hs[h]
+	if st == nil {
+		return
+	}
 	cr.do(op{h: h, code: "DU", dump: "F"})
 	type pers struct {
 		ex bool
@@ -1681,6 +1727,10 @@ func (cr *caseRun) generate() {
 		}
 		h := cur
 		st := e.hs[h]
+		if st == nil {
+			cur = 0
+			continue
+		}
 		l := cr.lin[h]
 		a := ua[r.Intn(3)]
 		k := uk[r.Intn(3)]
@@ -1762,7 +1812,7 @@ func (cr *caseRun) generate() {
 				cr.commit(h, r.Pick(1, 2) == 1, cr.spec(a, k), r.Pick(4, 3, 2, 1, 1))
 			} else {
 				cr.commitAndReopen(h, r.Chance(2, 3))
-				if len(live) < 4 && r.Bool() {
+				if len(live) < 4 && e.hs[cr.nextH-1] != nil && r.Bool() {
 					live = append(live, cr.nextH-1)
 					if r.Bool() {
 						cur = cr.nextH - 1
